@@ -54,7 +54,9 @@ impl SendChannelUnreliable {
         let ghost avail0 = *available_bytes as int;
         let ghost q0 = self.unreliable_messages@;
         let ghost bound = seq0 + 2 * q0.len() + self.memory_usage_bytes + 1;
-        proof { lemma_upkts_ok_empty(seq0, q0); lemma_usmall_ok_empty(); }
+        let ghost id0 = self.sliced_message_id as int;
+        let ghost mut idmap = Map::<u64, int>::empty();
+        proof { lemma_upkts_ok_empty(seq0, q0); lemma_usmall_ok_empty(); lemma_uids_ok_empty(q0, id0); }
 //@loop 1
             invariant
                 self.memory_usage_bytes == bytes_total(self.unreliable_messages@),
@@ -64,6 +66,8 @@ impl SendChannelUnreliable {
                 // budget: what is packed + what is pending + what is left = what was available
                 packets_payload(packets@) + bytes_total(small_messages@) + *available_bytes == avail0,
                 upkts_ok(packets@, seq0, q0),
+                uids_ok(packets@, q0, idmap, id0, self.sliced_message_id as int),
+                id0 <= self.sliced_message_id,
                 *packet_sequence == seq0 + packets@.len(),
                 usmall_ok(small_messages@, small_messages_bytes as int),
                 // the rest of the queue is a suffix of the original queue
@@ -88,6 +92,8 @@ impl SendChannelUnreliable {
                 proof {
                     assert(num_slices <= message@.len() && num_slices >= 2) by (nonlinear_arith)
                         requires (num_slices - 1) * 1200 < message@.len(), message@.len() > 1200, message@.len() <= num_slices * 1200;
+                    lemma_uids_ok_new_id(packets@, q0, idmap, id0, self.sliced_message_id as int, qk);
+                    idmap = idmap.insert(self.sliced_message_id, qk);
                 }
 //@loop 2
                     invariant
@@ -96,6 +102,8 @@ impl SendChannelUnreliable {
                         *packet_sequence == seq0 + packets@.len(),
                         packets_payload(packets@) == p0 + (if slice_index == num_slices { message@.len() as int } else { slice_index * 1200 }),
                         upkts_ok(packets@, seq0, q0),
+                        uids_ok(packets@, q0, idmap, id0, self.sliced_message_id + 1),
+                        idmap.contains_key(self.sliced_message_id) && idmap[self.sliced_message_id] == qk,
                         (num_slices - 1) * 1200 < message@.len() <= num_slices * 1200,
                         num_slices >= 2,
 //@before /packets\.push\(Packet::UnreliableSlice \{/
@@ -106,6 +114,9 @@ impl SendChannelUnreliable {
                         assert(packets@.drop_last() =~= pk0);
                         assert(pk matches Packet::UnreliableSlice { sequence, channel_id, slice } && slice.authentic(q0[qk]@));
                         lemma_upkts_ok_push(packets@.drop_last(), pk, seq0, q0);
+                        // the slice carries the id opened for this message (the counter's current value)
+                        assert(uslice_id_ok(pk, q0, idmap));   // @C03 get_packets_to_send.slice_carries_the_id_opened_for_its_message
+                        lemma_uids_ok_push(packets@.drop_last(), pk, q0, idmap, id0, self.sliced_message_id + 1);
                         lemma_packets_payload_push(packets@.drop_last(), pk);
                         assert(packets@.drop_last().push(pk) =~= packets@);
                     }
@@ -120,6 +131,7 @@ impl SendChannelUnreliable {
                         lemma_usmall_packet_fits(sm, bytes1, (seq0 + packets@.len() - 1) as u64, self.channel_id);
                         assert(pk == Packet::SmallUnreliable { sequence: (seq0 + packets@.len() - 1) as u64, channel_id: self.channel_id, messages: sm });
                         lemma_upkts_ok_push(packets@.drop_last(), pk, seq0, q0);
+                        lemma_uids_ok_push(packets@.drop_last(), pk, q0, idmap, id0, self.sliced_message_id as int);
                         lemma_packets_payload_push(packets@.drop_last(), pk);
                         assert(packets@.drop_last().push(pk) =~= packets@);
                         lemma_usmall_ok_empty();
@@ -147,12 +159,13 @@ impl SendChannelUnreliable {
                 lemma_usmall_packet_fits(sm2, bytes2, (seq0 + packets@.len() - 1) as u64, self.channel_id);
                 assert(pk == Packet::SmallUnreliable { sequence: (seq0 + packets@.len() - 1) as u64, channel_id: self.channel_id, messages: sm2 });
                 lemma_upkts_ok_push(packets@.drop_last(), pk, seq0, q0);
+                lemma_uids_ok_push(packets@.drop_last(), pk, q0, idmap, id0, self.sliced_message_id as int);
                 lemma_packets_payload_push(packets@.drop_last(), pk);
                 assert(packets@.drop_last().push(pk) =~= packets@);
                 assert(small_messages@ =~= Seq::<Bytes>::empty());
             }
 //@before /^        packets$/
-        proof { reveal(upkts_ok); }
+        proof { reveal(upkts_ok); assert(uids_ok(packets@, q0, idmap, id0, self.sliced_message_id as int)); }
 //@endfn
 }
 
